@@ -967,6 +967,75 @@ func (e *Engine) checkMapOrderIndependence(fn *ssa.Function) {
 	e.oblige(fx, st, "order", "map-keys-sorted-before-use", tf(sorts > 0), "keys are collected from a map but never sorted: their order is Go's random map iteration order", fn.Pos())
 }
 
+// checkFlagConfined: in function fn the configuration field `field` may be read for one purpose
+// only - to decide whether `callee` is applied to the finished result. Every read of the field
+// must feed nothing but the condition of a branch whose taken side calls callee. (C10: the
+// optimiser is proved value-preserving; switching it on must not change anything else about how
+// a template is compiled.) One ground obligation of class "flag" per read.
+func (e *Engine) checkFlagConfined(fn *ssa.Function, field, callee string) {
+	if len(fn.Blocks) == 0 {
+		return
+	}
+	name := funcFullName(fn)
+	fx := &FuncExec{eng: e, fn: fn, name: name, modKeys: map[string]bool{}, havocGens: map[string]bool{}}
+	k := 0
+	callsCallee := func(b *ssa.BasicBlock) bool {
+		for _, in := range b.Instrs {
+			if c, ok := in.(ssa.CallInstruction); ok {
+				if f := c.Common().StaticCallee(); f != nil && f.Name() == callee {
+					return true
+				}
+			}
+		}
+		return false
+	}
+	for _, b := range fn.Blocks {
+		for _, ins := range b.Instrs {
+			fa, ok := ins.(*ssa.FieldAddr)
+			if !ok {
+				continue
+			}
+			st, ok := fa.X.Type().Underlying().(*types.Pointer)
+			if !ok {
+				continue
+			}
+			str, ok := st.Elem().Underlying().(*types.Struct)
+			if !ok || fa.Field >= str.NumFields() || str.Field(fa.Field).Name() != field {
+				continue
+			}
+			k++
+			okUse := fa.Referrers() != nil
+			if okUse {
+				for _, r := range *fa.Referrers() {
+					ld, isLoad := r.(*ssa.UnOp)
+					if _, isDbg := r.(*ssa.DebugRef); isDbg {
+						continue
+					}
+					if !isLoad || ld.Op != token.MUL || ld.Referrers() == nil {
+						okUse = false
+						break
+					}
+					for _, u := range *ld.Referrers() {
+						if _, isDbg := u.(*ssa.DebugRef); isDbg {
+							continue
+						}
+						iff, isIf := u.(*ssa.If)
+						if !isIf || len(iff.Block().Succs) != 2 || !callsCallee(iff.Block().Succs[0]) {
+							okUse = false
+						}
+					}
+				}
+			}
+			s0 := &State{fx: fx, declSet: map[string]bool{}, pcSet: map[string]bool{}, ghostV: map[string]Value{}}
+			s0.heap = &HeapView{m: map[string]string{}, base: "0"}
+			s0.old = s0.heap
+			txt, _ := e.srcLine(ins.Pos())
+			e.oblige(fx, s0, "flag", fmt.Sprintf("%s-only-guards-%s:%s#%d", field, callee, strings.TrimSpace(txt), k), tf(okUse),
+				fmt.Sprintf("the field %s is read for something other than deciding whether %s is applied to the finished result", field, callee), ins.Pos())
+		}
+	}
+}
+
 func tf(b bool) string {
 	if b {
 		return "true"
